@@ -21,17 +21,19 @@ import (
 // executor does: L1 initiate_token_deposit events become MsgFinalizeTokenDeposit, L2
 // initiate_token_withdrawal events become leaves of output trees and L1 claims.
 type twoChain struct {
-	l1        *henv.L1
-	l2        *henv.L2
-	bridgeID  uint64
-	opts      tcOpts
-	users     []henv.User // same keys on both chains (same bech32 prefix)
-	executors []henv.User
-	admin     henv.User
-	proposer  henv.User
-	chal      henv.User
-	period    time.Duration
-	log       []string
+	l1       *henv.L1
+	l2       *henv.L2
+	bridgeID uint64
+	opts     tcOpts
+	// neighbours: ids of the other bridges on the same L1 (created before or after ours)
+	neighbours []uint64
+	users      []henv.User // same keys on both chains (same bech32 prefix)
+	executors  []henv.User
+	admin      henv.User
+	proposer   henv.User
+	chal       henv.User
+	period     time.Duration
+	log        []string
 }
 
 // pendingDeposit is what the executor reads from one L1 deposit event.
@@ -54,6 +56,8 @@ type tcOpts struct {
 	otherFirst int // number of bridges created before ours (so that our id is not 1)
 	// fromGenesis: the L2 starts through InitGenesis(default genesis) as a real chain does
 	fromGenesis bool
+	// otherAfter: number of bridges created after ours (neighbours with a higher id)
+	otherAfter int
 }
 
 func newTwoChain(o tcOpts) *twoChain {
@@ -85,6 +89,16 @@ func newTwoChain(o tcOpts) *twoChain {
 			panic(r.Err)
 		}
 		tc.bridgeID = r.Resp.(*ophosttypes.MsgCreateBridgeResponse).BridgeId
+	}
+	for i := 0; i < o.otherFirst; i++ {
+		tc.neighbours = append(tc.neighbours, tc.bridgeID-uint64(i)-1)
+	}
+	for i := 0; i < o.otherAfter; i++ {
+		r := tc.l1.Deliver(ophosttypes.NewMsgCreateBridge(tc.proposer.Str, henv.DefaultBridgeConfig(tc.proposer.Str, tc.chal.Str, tc.period)))
+		if !r.OK() {
+			panic(r.Err)
+		}
+		tc.neighbours = append(tc.neighbours, r.Resp.(*ophosttypes.MsgCreateBridgeResponse).BridgeId)
 	}
 	cfg := henv.DefaultBridgeConfig(tc.proposer.Str, tc.chal.Str, tc.period)
 	info := opchildtypes.BridgeInfo{BridgeId: tc.bridgeID, BridgeAddr: ophosttypes.BridgeAddress(tc.bridgeID).String(), L1ChainId: "l1-chain", L1ClientId: "07-tendermint-0", BridgeConfig: cfg}
@@ -229,4 +243,28 @@ func (tc *twoChain) restartL2() {
 	n.K.InitGenesis(n.Ctx, &gs)
 	tc.l2 = n
 	tc.logf("L2 genesis export -> import")
+}
+
+// neighbourChallenge is ordinary life on another bridge of the same L1: its proposer submits two
+// outputs and its challenger deletes one of them (from index `from`, 1 = everything pending).
+// None of it may touch our bridge. It reports what happened for the log.
+func (tc *twoChain) neighbourChallenge(id uint64, from uint64) string {
+	next, _ := tc.l1.K.GetNextOutputIndex(tc.l1.Ctx, id)
+	var l2b uint64 = 1
+	if next > 1 {
+		if last, err := tc.l1.K.GetOutputProposal(tc.l1.Ctx, id, next-1); err == nil {
+			l2b = last.L2BlockNumber + 1
+		}
+	}
+	for k := uint64(0); k < 2; k++ {
+		if r := tc.l1.Deliver(ophosttypes.NewMsgProposeOutput(tc.proposer.Str, id, next+k, l2b+k, ref32(byte(7+k)))); !r.OK() {
+			return fmt.Sprintf("neighbour %d: propose %d refused: %v", id, next+k, r.Err)
+		}
+	}
+	idx := next + 1
+	if from == 1 {
+		idx = 1
+	}
+	r := tc.l1.Deliver(ophosttypes.NewMsgDeleteOutput(tc.chal.Str, id, idx))
+	return fmt.Sprintf("neighbour bridge %d: outputs %d,%d proposed, delete from %d -> %v", id, next, next+1, idx, r.Err)
 }
